@@ -135,6 +135,7 @@ partial def strLoop (h : IO.FS.Stream) : IO Unit := do
   IO.println s!"D {hexOfChars (destringifyC (stringify s))}"
   IO.println s!"R {hexOfChars (destringifyC s)}"
   IO.println s!"F {hexOfChars (destringifyFixed (stringify s))}"
+  IO.println s!"Q {hexOfChars (destringifyFixed s)}"
   strLoop h
 
 def main (args : List String) : IO Unit := do
